@@ -59,6 +59,8 @@ def selftest():
 def jobs(tier, seed):
     js = [{"part": "short", "lo": lo, "hi": lo + 32} for lo in range(0, 256, 32)]
     js.append({"part": "misc"})
+    for lo in range(0, 256, 32):
+        js.append({"part": "headers", "lo": lo, "hi": lo + 32})
     js.append({"part": "reject"})
     # every state x every byte, state entered through its 2-byte string (both tiers); thorough also
     # enters every state through a second, 3-byte string (prefix 5a) to probe that only the state matters
@@ -192,6 +194,20 @@ def run_job(job):
             res.kcount += 256  # 256 distinct strings per state and entry family
         res.counters["transition_states"] += job["hi"] - job["lo"]
         res.sample({"state": "%04x" % job["lo"], "entered_by": PRE[job["lo"]], "byte": "ff", "next_state": "%04x" % R.step(job["lo"], 255)})
+    elif part == "headers":
+        # strings that look like frame headers: magic + every 16-bit length field, and every 2-byte start followed by a
+        # zero length field - content must never make the signer treat a string specially
+        for a in range(job["lo"], job["hi"]):
+            for b in range(256):
+                for hx in ("fef0" + HEXB[a] + HEXB[b] + "00010203", HEXB[a] + HEXB[b] + "0000" + "0a0b", "fef00000" + HEXB[a] + HEXB[b]):
+                    data = bytes.fromhex(hx)
+                    if sign(hx) != hx + SIG[R.crc(data)]:
+                        _check_string(res, hx, "header-like")
+                    else:
+                        res.evals += 1
+                        res.traces += 1
+                        res.kcount += 1
+        res.sample({"input_hex": "fef0000000010203", "note": "a zero length field is just two zero bytes"})
     elif part == "misc":
         # structured longer strings, left-fold property on every split, bit flips of real frames
         longs = []
@@ -211,6 +227,20 @@ def run_job(job):
                 res.evals += 1
                 if crc_hqx(d, 0x1021) != crc_hqx(d[cut:], crc_hqx(d[:cut], 0x1021)):
                     res.violation("crc-not-left-fold", {"hex": d.hex(), "kind": "fold", "cut": cut}, "crc_hqx is not a left fold", None, None)
+        # the other public helper that touches a frame before it is signed: what it returns is signed like any string
+        from aioswitcher.device.tools import set_message_length
+
+        for fr in _frames():
+            raw = bytes.fromhex(fr)[:-4]
+            for placeholder in ("fef00000", "fef0ffff", raw[:4].hex()):
+                m = placeholder + raw[4:].hex()
+                try:
+                    r = set_message_length(m)
+                except Exception as exc:  # noqa: BLE001
+                    res.violation("set-message-length-raises", {"hex": m, "kind": "after-set-length"}, f"set_message_length raised {exc!r}")
+                    continue
+                _check_string(res, r, "after-set-length")
+                _check_string(res, m, "after-set-length")
         for fr in _frames():
             body = bytearray(bytes.fromhex(fr)[:-4])
             for i in range(len(body)):
@@ -260,6 +290,10 @@ def run_job(job):
 
 def replay(case):
     res = Res()
+    if case["kind"] == "after-set-length":
+        # the order of calls matters for this family: replay the whole part
+        r2 = run_job({"part": "misc"})
+        return [v for v in r2.violations if v["case"].get("kind") == "after-set-length"]
     if case["kind"] == "reject":
         try:
             out = _sign(case["hex"])
